@@ -567,6 +567,9 @@ def _evaluate_log_F_ext_using_lmfit(
             prog if max_nfev else None,
         ),
         max_nfev=max_nfev,
+        # Differential evolution is a stochastic method. Use a fixed seed so
+        # that repeated tests of the same data return the same result.
+        **({"seed": 42} if method == "differential_evolution" else {}),
     )
     if not max_nfev:
         prog.increment()
